@@ -540,43 +540,60 @@ func (a *NilAnalysis) containsHolds(c *ssa.Call) bool {
 	return false
 }
 
-// prefixHolds: the current site is dominated by the true edge of strings.HasPrefix/HasSuffix(x, "const")
-// on the same register ⇒ len(x) ≥ len(const).
+// prefixHolds: the current site is dominated by the true edge of strings.HasPrefix/HasSuffix(x, "const") on the same
+// register (directly, negated on the false edge, or as an operand of a && in value position) ⇒ len(x) is at least the
+// length of the shortest string that starts with the longest such prefix and ends with the longest such suffix
+// ("[" and "]" cannot be the same character: two at least).
 func (a *NilAnalysis) prefixHolds(x ssa.Value) int64 {
 	if a.cur == nil {
 		return 0
 	}
-	best := int64(0)
-	for b := a.cur.Block(); b != nil; b = b.Idom() {
-		d := b.Idom()
-		if d == nil || len(b.Preds) != 1 || b.Preds[0] != d {
-			continue
+	pre, suf := "", ""
+	for _, dc := range dominatingConds(a.cur.Block()) {
+		cond, taken := dc.cond, dc.taken
+		for {
+			if u, ok := cond.(*ssa.UnOp); ok && u.Op == token.NOT {
+				cond, taken = u.X, !taken
+				continue
+			}
+			break
 		}
-		iff, ok := d.Instrs[len(d.Instrs)-1].(*ssa.If)
-		if !ok || d.Succs[0] != b {
-			continue
-		}
-		cc, ok := iff.Cond.(*ssa.Call)
-		if !ok {
+		cc, ok := cond.(*ssa.Call)
+		if !ok || !taken {
 			continue
 		}
 		sc := cc.Call.StaticCallee()
-		if sc == nil {
+		if sc == nil || len(cc.Call.Args) != 2 || cc.Call.Args[0] != x {
 			continue
 		}
+		c, ok := stripConv(cc.Call.Args[1]).(*ssa.Const)
+		if !ok || c.Value == nil || c.Value.Kind() != constant.String {
+			continue
+		}
+		k := constant.StringVal(c.Value)
 		switch sc.String() {
-		case "strings.HasPrefix", "strings.HasSuffix", "bytes.HasPrefix", "bytes.HasSuffix":
-			if cc.Call.Args[0] != x {
-				continue
+		case "strings.HasPrefix", "bytes.HasPrefix":
+			if len(k) > len(pre) {
+				pre = k
 			}
-			if c, ok := cc.Call.Args[1].(*ssa.Const); ok && c.Value != nil && c.Value.Kind() == constant.String {
-				if n := int64(len(constant.StringVal(c.Value))); n > best {
-					best = n
-				}
+		case "strings.HasSuffix", "bytes.HasSuffix":
+			if len(k) > len(suf) {
+				suf = k
 			}
 		}
 	}
-	return best
+	// the shortest string with that prefix and that suffix: they may overlap only where they agree
+	lo := len(pre)
+	if len(suf) > lo {
+		lo = len(suf)
+	}
+	for n := lo; n < len(pre)+len(suf); n++ {
+		o := len(pre) + len(suf) - n
+		if pre[len(pre)-o:] == suf[:o] {
+			return int64(n)
+		}
+	}
+	return int64(len(pre) + len(suf))
 }
 
 // regexpSubexp: number of capture groups of the package-level regexp the value is loaded from.
